@@ -43,7 +43,7 @@ def _reactor_class(state):
 
 
 def table(ctx, state, direction, which='supported', sentinel=False,
-          prior=None):
+          prior=None, retarget=False):
     import minecraft
     from minecraft.networking.connection import ConnectionContext
     sup = list(minecraft.SUPPORTED_PROTOCOL_VERSIONS)
@@ -61,7 +61,13 @@ def table(ctx, state, direction, which='supported', sentinel=False,
         if direction == 'clientbound':
             _reactor_class(state)(types.SimpleNamespace(context=c0))
     pv = sym_version(ctx, 'pv', versions)
-    c = ConnectionContext(protocol_version=pv)
+    if prior is not None and retarget:
+        # the SAME context object moved to the new version in place, which
+        # is what Connection.connect() does on negotiation and on reconnect
+        c = c0
+        c.protocol_version = pv
+    else:
+        c = ConnectionContext(protocol_version=pv)
     pkts = sorted(mod.get_packets(c), key=lambda p: p.__name__)
     by_id = {}
     bad = []
@@ -121,6 +127,13 @@ def instances(tier, seed):
                             'table', {'state': state, 'direction': direction,
                                       'prior': prior}, W=40, budget_s=1800,
                             witness_every=3))
+    for state, direction in TABLES:
+        # ... and the connection's own context was moved to this version
+        prior = [47, 757] if state != 'play' else [47]
+        out.append(Instance('retargeted:%s.%s' % (direction, state),
+                            'table', {'state': state, 'direction': direction,
+                                      'prior': prior, 'retarget': True},
+                            W=40, budget_s=1800, witness_every=3))
     for state, direction in TABLES:
         if state in ('play', 'login'):
             out.append(Instance(
